@@ -47,7 +47,7 @@ LITS_OK = "{" + ", ".join(str(i) for i in range(1, 61) if i not in KNOWN_LITS) +
 
 
 def cfg_text(pal, nodes, docs, styles, coll, decor, ops, lits, indents, steps=1, flags="{}", breaks='{"LF"}',
-             widths="{2}", sim=False, inv=False, avoid='{"K1", "K2", "AK", "HC", "SA"}'):
+             widths="{2}", sim=False, inv=False, avoid='{"K1", "K2", "AK", "HC", "SA", "BC"}'):
     return ("CONSTANTS\n  PalUse = %s\n  MaxNodes = %d\n  MaxDocs = %d\n  ScalarStyles = %s\n  CollStyles = %s\n"
             "  MaxDecor = %d\n  Indents = %s\n  Breaks = %s\n  DocFlags = %s\n  Avoid = %s\n  Sim = %s\n"
             "  MaxSteps = %d\n  Ops = %s\n  LitUse = %s\n  IndentOpts = %s\n"
@@ -76,7 +76,7 @@ def scopes(q):
         ("simk", cfg_text("{1, 13, 25}", 4, 1, '{"plain", "single"}', both, 1000, '{"assign", "newkey", "update", "add"}',
                           "{2, 25, 54}", "{0, 2}", sim=True), "num=%d" % (40 if q else 300), 1),
         # key anchors, `get` of subtrees holding aliases, "0o17": exhibits AKEY / SUBALIAS / OCT
-        ("simk2", cfg_text("{1, 8, 19, 23, 40}", 6, 1, '{"plain", "single"}', both, 1000, '{"id", "get", "del", "assign"}', "{1}", "{2}",
+        ("simk2", cfg_text("{1, 8, 19, 23, 40}", 6, 1, '{"plain", "single", "lit"}', both, 1000, '{"id", "get", "del", "assign"}', "{1}", "{2}",
                            sim=True, avoid='{"K1", "K2", "HC"}'), "num=%d" % (80 if q else 600), 1),
     ]
 
@@ -85,9 +85,13 @@ def generate(ctx, q):
     from concurrent.futures import ThreadPoolExecutor
     path = ctx.path("cases.ndjson")
     if os.environ.get("VERIF_DEV_REUSE") and os.path.exists(path):
-        n = sum(1 for _ in open(path))
-        ctx.stage("generate (reused)", 0.0, cases=n)
-        return path, n
+        # development aid (mutation testing): reuse the generated cases, optionally every k-th only
+        k = int(os.environ.get("VERIF_DEV_SAMPLE", "1"))
+        lines = [ln for i, ln in enumerate(open(path)) if i % k == 0]
+        path = ctx.path("cases-dev.ndjson")
+        open(path, "w").writelines(lines)
+        ctx.stage("generate (reused)", 0.0, cases=len(lines))
+        return path, len(lines)
     sc = scopes(q)
 
     def one(arg):
@@ -224,11 +228,13 @@ def classify(c, events, k):
                     (re.fullmatch(r"0o[0-7]+", text(a)) and b == "n:%d" % int(text(a)[2:], 8)) or
                     (re.fullmatch(r"0x[0-9a-fA-F]+", text(a)) and b == "n:%d" % int(text(a)[2:], 16))):
                 kinds.add("OCT")        # a "0o17" / "0x1" string came back as an integer
+            elif a[:2] == "s:" and b[:2] == "s:" and re.sub(r" # c(?=\n|$)", "", text(b)) == text(a) and text(b) != text(a):
+                kinds.add("BSCOMMENT")  # the header comment of a block scalar was printed inside its content
             elif a in ("k:7c", "k:3e") and b == "k:":
                 kinds.add("KEYBLK")     # the key `|` / `>` came back as the empty key
             else:
                 return ""
-        for cls in ("LSP", "OCT", "KEYBLK"):
+        for cls in ("LSP", "OCT", "KEYBLK", "BSCOMMENT"):
             if cls in kinds:
                 return cls
     return ""
